@@ -348,6 +348,11 @@ class Body:
                     out = [t['t']]
                 elif k == 'switch':
                     out = [x[1] for x in t['targets']] + [t['otherwise']]
+                    d = t['d']
+                    if d['k'] == 'const' and d.get('v') is not None and 'name' not in d:
+                        # literal discriminant (e.g. cfg!(debug_assertions)): only one target is feasible
+                        hit = [x[1] for x in t['targets'] if x[0] == d['v']]
+                        out = hit[:1] if hit else [t['otherwise']]
                 elif k in ('call', 'assert', 'drop', 'yield'):
                     if t.get('t') is not None:
                         out = [t['t']]
@@ -416,7 +421,7 @@ class Body:
             if b['cleanup']:
                 continue
             t = b['term']
-            if t['k'] != 'switch':
+            if t['k'] != 'switch' or (t['d']['k'] == 'const' and t['d'].get('v') is not None and 'name' not in t['d']):
                 for o in self.succ(j):
                     es.append((j, o, None))
                 continue
